@@ -254,7 +254,17 @@ func indent(src string) string {
 }
 
 // Styles lists the non-canonical layouts.
-var Styles = []string{"canonical", "crlf", "nofinalnl", "spaces", "blanklines", "trailingws", "bom", "semis"}
+var Styles = func() []string {
+	// the styles with a 70 KB line are expensive to simulate: one draw in twelve
+	var out []string
+	for i := 0; i < 4; i++ {
+		out = append(out, "canonical", "crlf", "nofinalnl", "spaces", "blanklines", "trailingws", "bom", "semis")
+	}
+	return append(out, "hugeheader", "hugeline", "crlf-hugeline")
+}()
+
+// a line longer than the 64 KiB default token limit of bufio.Scanner
+var hugeComment = "// " + strings.Repeat("lorem ipsum dolor sit amet ", 2600)
 
 // ApplyStyle rewrites layout without changing the token stream.
 func ApplyStyle(r *world.PRNG, src, style string) []byte {
@@ -271,6 +281,17 @@ func ApplyStyle(r *world.PRNG, src, style string) []byte {
 		src = strings.ReplaceAll(src, "{\n", "{   \t\n")
 	case "bom":
 		src = "\xef\xbb\xbf" + src
+	case "hugeheader":
+		// one very long comment line before the package clause
+		src = hugeComment + "\n\n" + src
+	case "hugeline", "crlf-hugeline":
+		// one very long comment line after the first function's opening brace
+		if i := strings.Index(src, "{\n"); i >= 0 {
+			src = src[:i+2] + hugeComment + "\n" + src[i+2:]
+		}
+		if style == "crlf-hugeline" {
+			src = strings.ReplaceAll(src, "\n", "\r\n")
+		}
 	case "semis":
 		// explicit semicolons after simple statements
 		lines := strings.Split(src, "\n")
